@@ -188,7 +188,7 @@ func (g *graphMemoizer) Objects(ctx context.Context, s *node.Node, p *predicate.
 		for _, o := range v {
 			select {
 			case <-ctx.Done():
-				return nil
+				return ctx.Err()
 			case objs <- o:
 				// Nothing to do.
 			}
@@ -264,7 +264,7 @@ func (g *graphMemoizer) Subjects(ctx context.Context, p *predicate.Predicate, o 
 		for _, s := range v {
 			select {
 			case <-ctx.Done():
-				return nil
+				return ctx.Err()
 			case subs <- s:
 				// Nothing to do.
 			}
@@ -330,7 +330,7 @@ func (g *graphMemoizer) PredicatesForSubject(ctx context.Context, s *node.Node, 
 		for _, p := range v {
 			select {
 			case <-ctx.Done():
-				return nil
+				return ctx.Err()
 			case prds <- p:
 				// Nothing to do.
 			}
@@ -396,7 +396,7 @@ func (g *graphMemoizer) PredicatesForObject(ctx context.Context, o *triple.Objec
 		for _, p := range v {
 			select {
 			case <-ctx.Done():
-				return nil
+				return ctx.Err()
 			case prds <- p:
 				// Nothing to do.
 			}
@@ -462,7 +462,7 @@ func (g *graphMemoizer) PredicatesForSubjectAndObject(ctx context.Context, s *no
 		for _, p := range v {
 			select {
 			case <-ctx.Done():
-				return nil
+				return ctx.Err()
 			case prds <- p:
 				// Nothing to do.
 			}
@@ -528,7 +528,7 @@ func (g *graphMemoizer) TriplesForSubject(ctx context.Context, s *node.Node, lo 
 		for _, t := range v {
 			select {
 			case <-ctx.Done():
-				return nil
+				return ctx.Err()
 			case trpls <- t:
 				// Nothing to do.
 			}
@@ -594,7 +594,7 @@ func (g *graphMemoizer) TriplesForPredicate(ctx context.Context, p *predicate.Pr
 		for _, t := range v {
 			select {
 			case <-ctx.Done():
-				return nil
+				return ctx.Err()
 			case trpls <- t:
 				// Nothing to do.
 			}
@@ -660,7 +660,7 @@ func (g *graphMemoizer) TriplesForObject(ctx context.Context, o *triple.Object, 
 		for _, t := range v {
 			select {
 			case <-ctx.Done():
-				return nil
+				return ctx.Err()
 			case trpls <- t:
 				// Nothing to do.
 			}
@@ -726,7 +726,7 @@ func (g *graphMemoizer) TriplesForSubjectAndPredicate(ctx context.Context, s *no
 		for _, t := range v {
 			select {
 			case <-ctx.Done():
-				return nil
+				return ctx.Err()
 			case trpls <- t:
 				// Nothing to do.
 			}
@@ -792,7 +792,7 @@ func (g *graphMemoizer) TriplesForPredicateAndObject(ctx context.Context, p *pre
 		for _, t := range v {
 			select {
 			case <-ctx.Done():
-				return nil
+				return ctx.Err()
 			case trpls <- t:
 				// Nothing to do.
 			}
@@ -876,7 +876,7 @@ func (g *graphMemoizer) Triples(ctx context.Context, lo *storage.LookupOptions, 
 		for _, t := range v {
 			select {
 			case <-ctx.Done():
-				return nil
+				return ctx.Err()
 			case trpls <- t:
 				// Nothing to do.
 			}
